@@ -2113,6 +2113,16 @@ class NativeMethod:
                 if args[0] != '':
                     I.ctx.assume(z3.Implies(z3.Not(z3.Contains(e, z3.StringVal(args[0]))), r_ == e))
                 return I.wrap(r_)
+            if n == 'partition' and len(args) == 1 and isinstance(args[0], str) and args[0]:
+                # (head, sep, tail) around the first occurrence of sep; (s, '', '') when there is none
+                sep = z3.StringVal(args[0])
+                i = z3.IndexOf(e, sep, z3.IntVal(0))
+                L = z3.Length(e)
+                head = z3.If(i < 0, e, z3.SubString(e, 0, i))
+                mid = z3.If(i < 0, z3.StringVal(''), sep)
+                tail = z3.If(i < 0, z3.StringVal(''), z3.SubString(e, i + len(args[0]), L - i - len(args[0])))
+                I.used_lib.add('str.partition = prefix / separator / suffix around str.indexof')
+                return (I.wrap(head), I.wrap(mid), I.wrap(tail))
             if n == 'find' and I._strish(args[0]):
                 I.used_lib.add('str.find = str.indexof')
                 start = I.ex(args[1]) if len(args) > 1 else z3.IntVal(0)
